@@ -52,6 +52,39 @@ def p_str(p):
     return " + ".join(parts)
 
 
+def p_parse(s):
+    """inverse of p_str for sums whose terms are integers, atoms or integer multiples of one term (a product of
+    atoms is read back as one opaque term, consistently, so differences of parsed values are still exact)"""
+    import re
+    parts, depth, cur = [], 0, ""
+    i = 0
+    while i < len(s):
+        ch = s[i]
+        if ch in "([":
+            depth += 1
+        elif ch in ")]":
+            depth -= 1
+        if depth == 0 and s.startswith(" + ", i):
+            parts.append(cur)
+            cur = ""
+            i += 3
+            continue
+        cur += ch
+        i += 1
+    parts.append(cur)
+    r = {}
+    for t in parts:
+        if re.match(r"^-?\d+$", t):
+            r = p_add(r, p_const(int(t)))
+            continue
+        m = re.match(r"^(-?\d+)\*(.+)$", t)
+        if m:
+            r = p_add(r, {(m.group(2),): int(m.group(1))})
+        else:
+            r = p_add(r, p_atom(t))
+    return r
+
+
 def poly(fn, i, subst=True, depth=6, atom_hook=None, _stack=()):
     nd = fn.nodes[i]
     k = nd["k"]
